@@ -21,7 +21,7 @@ from .common import kw
 from .tables_region import N
 
 
-def rule_keyword_rewrite(rep):
+def rule_keyword_rewrite(rep, boundary=True):
     with rep.rule(
         "R19.kw-rewrite",
         "a string terminal is rewritten to a keyword iff the KEYWORD regex matches its whole text; "
@@ -90,7 +90,7 @@ def rule_keyword_rewrite(rep):
                     ok2 = isinstance(c, ast.Call) and is_name(c.func, "RegExRecognizer") and c.args
                     r.need(ok2, "keyword recogniser is not a RegExRecognizer(...) construction")
                     pat = c.args[0]
-                    _check_pattern(r, pat)
+                    _check_pattern(r, pat, boundary)
                     ic = kw(c, "ignore_case")
                     r.check(
                         ic is not None and plain(ic) == "T.recognizer.ignore_case",
@@ -124,7 +124,7 @@ def rule_keyword_rewrite(rep):
         )
 
 
-def _check_pattern(r, pat):
+def _check_pattern(r, pat, boundary=True):
     """the regex template of a keyword: \\b + re.escape(text) + \\b"""
     from ..core import strip_at
     pat = strip_at(pat)[0]
@@ -165,7 +165,7 @@ def _check_pattern(r, pat):
         f"keyword regex template is {unparse(pat)}: no whole-word guard on both sides of the text",
         node=pat,
     )
-    if wordb:
+    if wordb and boundary:
         r.violation(
             "_fix_keyword_terminals:word-boundary",
             "the rewrite template uses \\b...\\b; the property says 'not immediately preceded or followed "
@@ -396,3 +396,6 @@ def check(rep):
     rule_qualified_split(rep)
     rule_escape_chain(rep)
     rule_rank_and_hidden(rep)
+    from .C08 import rule_value_is_slice
+
+    rule_value_is_slice(rep)
